@@ -31,7 +31,7 @@ var probeOnce sync.Once
 //	wstr:<n>x<c>       the same bytes through io.WriteString (a writer's own WriteString method, if it has one)
 //	copy:<n>x<c>       the same bytes through io.Copy from a plain reader (a writer's own ReadFrom method, if it has one)
 //	flush              Flush
-//	panic              panic("probe panic")
+//	panic              panic("probe panic"); panic:abort panics with http.ErrAbortHandler
 //	ret:<code>[:err]   return (code, error?) immediately
 //
 // Without a ret operation the handler returns (0, nil). Requests without the
@@ -144,6 +144,9 @@ func (p probe) ServeHTTP(w http.ResponseWriter, r *http.Request) (int, error) {
 			}
 			wrote = true
 		case "panic":
+			if arg == "abort" {
+				panic(http.ErrAbortHandler) // (the value net/http itself treats specially)
+			}
 			panic("probe panic")
 		case "ret":
 			parts := strings.SplitN(arg, ":", 2)
